@@ -24,16 +24,17 @@ Print Assumptions C06_ring_stores_every_vertex_once.
 
 (* the structural facts the theorems below rest on, read off the source on every run: copy deep-copies in both branches
    and also the connectivity (a new object whose back-reference is the copy), merge / from_arrays / prepare() / the five appending exporters copy each vector, translate
-   works on a private copy of its parameter *)
+   works on a private copy of its parameter, three Euler angles mean rotations about the fixed axes x, y, z *)
 Theorem C06_structure_of_the_code :
   (forall attr : bool, (if attr then copy_mode_with_attributes else copy_mode_data_only) = Copy)
   /\ copy_connectivity_mode = Copy /\ copy_connectivity_backref = BackToCopy
   /\ eff merge_vertex_mode = Copy /\ eff from_arrays_mode = Copy /\ prepare_vertex_mode = Copy
   /\ (forall p, (0 <= p <= 4)%Z -> append_mode p = Copy)
-  /\ translate_param_by_value = true.
+  /\ translate_param_by_value = true
+  /\ euler_seq = Fixed_xyz.
 Proof.
   exact (conj copy_is_deep (conj copy_connectivity_is_deep (conj copy_connectivity_answers_from_the_copy (conj merge_copies (conj from_arrays_copies
-        (conj prepare_copies (conj appenders_copy translate_by_value))))))).
+        (conj prepare_copies (conj appenders_copy (conj translate_by_value euler_angles_about_fixed_axes)))))))).
 Qed.
 Print Assumptions C06_structure_of_the_code.
 
@@ -189,6 +190,15 @@ Theorem C06_transform_once :
     /\ (forall j, j <> i -> obj_cells w' j = obj_cells w j).
 Proof. exact (fun T O F => every_vertex_once_by_the_requested_map O F). Qed.
 Print Assumptions C06_transform_once.
+
+(* rotate(mesh, [a, b, c]) (list / tuple of Euler angles): the rotation applied is Rz Ry Rx - every vertex is turned
+   about x, then about y, then about z (fixed axes), as regenerated from the string handed to Rotation.from_euler *)
+Theorem C06_euler_form_of_rotate :
+  forall (T : Type) (O : ops T), field_laws O ->
+  forall (Rx Ry Rz : mat (T:=T)) v,
+    mapply O (euler_compose O Rx Ry Rz) v = mapply O Rz (mapply O Ry (mapply O Rx v)).
+Proof. exact (fun T O F => euler_form_is_x_then_y_then_z O F). Qed.
+Print Assumptions C06_euler_form_of_rotate.
 
 (* translate(t);translate(-t), scale(s);scale(1/s) (s<>0), rotate(R);rotate(R^T) (R^T R = I) restore the coordinates *)
 Theorem C06_inverses :
